@@ -101,6 +101,10 @@ def choose_sizes(p, rng, grant):
 
 def make_history(p, rng, grant=None, long=False):
     grant = grant or rng.choice(["one", "some", "big", "big"])
+    if any(o.get("ret") == "BUF_ERROR" for o in p["ops"]) and p["grant"] == "big":
+        # LZMA_BUF_ERROR (two calls in a row without progress) depends on how the output is sliced: a call that only
+        # gets one byte makes progress as long as any header byte is pending.  Replay with the grant of the plan.
+        grant = "big"
     u = choose_sizes(p, rng, grant)
     if long:
         # streaming profile: many small writes (a write after a completed flush is much shorter than the encoder's
